@@ -244,6 +244,114 @@ fn fast_path(ctx: &Ctx, shard: usize, n: usize, ev: &mut Ev) {
     }
 }
 
+/// (e) the certification gate as shipped to users of the command line: `fst verify <file>...` must exit 0 when every file is a built
+/// FST and non-zero as soon as ONE of the files given (first, middle or last) is a single-byte mutant - corruption is never certified.
+fn cli_verify(ctx: &Ctx, ev: &mut Ev) {
+    let bin = match std::env::var_os("FST_BIN") {
+        Some(b) => std::path::PathBuf::from(b),
+        None => {
+            ev.count("cli-verify:binary-not-available");
+            return;
+        }
+    };
+    let dir = ctx.root.join("target").join("tmp").join(format!("c08-cli-{}", std::process::id()));
+    let _ = std::fs::remove_dir_all(&dir);
+    if std::fs::create_dir_all(&dir).is_err() {
+        return;
+    }
+    let mut rng = Rng::new(ctx.seed, 0xC08C11);
+    let cases = crate::checks::c07::small_cases(ctx, 60);
+    let mut good: Vec<(std::path::PathBuf, Vec<u8>)> = vec![];
+    for (i, case) in cases.iter().enumerate().take(24) {
+        if let Ok(Ok(bytes)) = guard(|| build::build(if case.kv.iter().all(|(_, v)| *v == 0) { Front::SetInsert } else { Front::MapInsert }, &case.kv)) {
+            let p = dir.join(format!("good{}.fst", i));
+            if std::fs::write(&p, &bytes).is_ok() {
+                good.push((p, bytes));
+            }
+        }
+    }
+    if good.len() < 4 {
+        let _ = std::fs::remove_dir_all(&dir);
+        return;
+    }
+    let run = |files: &[&std::path::Path]| -> Option<bool> {
+        let mut c = std::process::Command::new(&bin);
+        c.arg("verify");
+        for f in files {
+            c.arg(f);
+        }
+        c.env_remove("FST_VERIF_TRACE").env_remove("FST_VERIF_SEED");
+        c.output().ok().map(|o| o.status.success())
+    };
+    // good files only: 1, 2 and 3 at a time
+    for i in 0..good.len() {
+        let files: Vec<&std::path::Path> = (0..1 + i % 3).map(|j| good[(i + j) % good.len()].0.as_path()).collect();
+        ev.eval(Some(crate::rng::fnv_u64(0xC11, i as u64)));
+        match run(&files) {
+            Some(true) => ev.count("cli-verify:runs-with-only-good-files"),
+            Some(false) => ev.violate("built-fst-not-certified", format!("`fst verify` over {} freshly built file(s) exits non-zero", files.len()), J::Null),
+            None => ev.count("cli-verify:spawn-failed"),
+        }
+    }
+    // one single-byte mutant among 0..2 good files, in every position of the argument list
+    let nmut = ctx.tier.pick(240, 3000);
+    let bad = dir.join("mutant.fst");
+    for m in 0..nmut {
+        let (_, bytes) = &good[m % good.len()];
+        let mut img = bytes.clone();
+        let len = img.len();
+        // regions in rotation: version, type, body, len, root address, checksum
+        let pos = match m % 6 {
+            0 => rng.usize(8),
+            1 => 8 + rng.usize(8),
+            2 => {
+                if len > 36 {
+                    16 + rng.usize(len - 36)
+                } else {
+                    rng.usize(len)
+                }
+            }
+            3 => len - 20 + rng.usize(8),
+            4 => len - 12 + rng.usize(8),
+            _ => len - 4 + rng.usize(4),
+        };
+        let orig = img[pos];
+        let newv = if pos == 0 && m % 12 < 6 { [1u8, 2][m % 2] } else { orig ^ (1u8 << rng.below(8)) };
+        if newv == orig {
+            continue;
+        }
+        img[pos] = newv;
+        if std::fs::write(&bad, &img).is_err() {
+            continue;
+        }
+        let nfiles = 1 + m % 3;
+        let at = (m / 3) % nfiles;
+        let mut files: Vec<&std::path::Path> = vec![];
+        for j in 0..nfiles {
+            if j == at {
+                files.push(bad.as_path());
+            } else {
+                files.push(good[(m + j + 1) % good.len()].0.as_path());
+            }
+        }
+        ev.eval(Some(crate::rng::fnv_u64(crate::rng::fnv_u64(0xC12, m as u64), pos as u64 * 256 + newv as u64)));
+        ev.count(region(len, pos));
+        match run(&files) {
+            Some(false) => {
+                ev.count("cli-verify:runs-with-a-corrupted-file");
+                ev.count(&format!("cli-verify:corrupted-file-at-position-{}-of-{}", at + 1, nfiles));
+            }
+            Some(true) => ev.violate(
+                "corruption-certified",
+                format!("`fst verify` exits 0 although argument {} of {} is a {}-byte FST whose byte at offset {} was changed from {:#04x} to {:#04x}", at + 1, nfiles, len, pos, orig, newv),
+                J::obj(vec![("offset", J::U(pos as u64)), ("from", J::U(orig as u64)), ("to", J::U(newv as u64)), ("file_position", J::U(at as u64)), ("files", J::U(nfiles as u64)), ("fst", J::bytes(bytes))]),
+            ),
+            None => ev.count("cli-verify:spawn-failed"),
+        }
+    }
+    let _ = std::fs::remove_dir_all(&dir);
+}
+
 pub fn run(ctx: &Ctx) -> i32 {
     let fams = gen::pool(ctx.tier, ctx.seed, ctx.tier.pick(8, 2));
     let small = crate::checks::c07::small_cases(ctx, ctx.tier.pick(400, 2000));
@@ -336,7 +444,9 @@ pub fn run(ctx: &Ctx) -> i32 {
         }
         fast_path(ctx, shard, n, ev);
     });
-    let mut floors: Vec<(&str, u64)> = vec![("built-fsts-verified", 1000), ("built-fsts-verified:chunked-sink", 20), ("mutants:version", 1000), ("mutants:type", 1000), ("mutants:body", 1000), ("mutants:len", 1000), ("mutants:root-addr", 1000), ("mutants:checksum", 1000), ("fastpath:lengths", 4000), ("fastpath:forged-special-checksum-values", 100), ("fastpath:misaligned-views", 500)];
+    let mut ev = ev;
+    cli_verify(ctx, &mut ev);
+    let mut floors: Vec<(&str, u64)> = vec![("cli-verify:runs-with-a-corrupted-file", 100), ("cli-verify:runs-with-only-good-files", 20), ("built-fsts-verified", 1000), ("built-fsts-verified:chunked-sink", 20), ("mutants:version", 1000), ("mutants:type", 1000), ("mutants:body", 1000), ("mutants:len", 1000), ("mutants:root-addr", 1000), ("mutants:checksum", 1000), ("fastpath:lengths", 4000), ("fastpath:forged-special-checksum-values", 100), ("fastpath:misaligned-views", 500)];
     let names: Vec<String> = (0..16).map(|i| format!("fastpath:len-mod-16={}", i)).collect();
     for nm in &names {
         floors.push((nm.as_str(), 100));
@@ -346,7 +456,7 @@ pub fn run(ctx: &Ctx) -> i32 {
         ev,
         Spec {
             level: "fault_enumeration",
-            rule: "three monitors. (a,b) one evaluation = one built FST (shared pool, two front ends, plus hostile chunked sinks): verify() must be Ok and the trailing 4 bytes must equal the masked CRC-32C of all preceding bytes computed by a bit-at-a-time reference. (c) one evaluation = one mutated image: for small FSTs EVERY offset x EVERY one of the 255 other byte values, plus bit flips sampled over corpus FSTs: the mutant must fail to open or fail verify() (never certified), both when opened directly and (every 4th mutant, all footer mutants) when it arrives through map_data on an FST opened from the good bytes; 2-4 byte bursts are run for panics only. (d) for every length 36..4200 (thorough 20000) a synthetic version-3 image with random body and reference checksum must verify (all lengths mod 16, all tail lengths of the slice-by-16 path) and must not verify after one bit flip; images are also verified as sub-slices at odd addresses, and for every 37th length the body is forged (GF(2) solve) so that the CORRECT stored checksum is exactly 0, 1, 0x80000000 or 0xFFFFFFFF; non-trivial = every evaluation; distinct = by construction (fst, offset, value) / fingerprint",
+            rule: "five monitors. (e) the command line gate: `fst verify f1 [f2 f3]` (subprocess, the binary built from the working tree) must exit 0 over freshly built files and non-zero whenever one argument - first, middle or last - is a single-byte mutant (version incl. 3->1/2, type, body, len, root address, checksum regions in rotation). (a,b) one evaluation = one built FST (shared pool, two front ends, plus hostile chunked sinks): verify() must be Ok and the trailing 4 bytes must equal the masked CRC-32C of all preceding bytes computed by a bit-at-a-time reference. (c) one evaluation = one mutated image: for small FSTs EVERY offset x EVERY one of the 255 other byte values, plus bit flips sampled over corpus FSTs: the mutant must fail to open or fail verify() (never certified), both when opened directly and (every 4th mutant, all footer mutants) when it arrives through map_data on an FST opened from the good bytes; 2-4 byte bursts are run for panics only. (d) for every length 36..4200 (thorough 20000) a synthetic version-3 image with random body and reference checksum must verify (all lengths mod 16, all tail lengths of the slice-by-16 path) and must not verify after one bit flip; images are also verified as sub-slices at odd addresses, and for every 37th length the body is forged (GF(2) solve) so that the CORRECT stored checksum is exactly 0, 1, 0x80000000 or 0xFFFFFFFF; non-trivial = every evaluation; distinct = by construction (fst, offset, value) / fingerprint",
             assumptions: vec!["version byte 3->1/2 mutants open and report ChecksumMissing: that is 'not certified', as the statement's last clause requires".into()],
             floors,
             exhaustive: Some(true),
